@@ -30,7 +30,7 @@ RULE = (
     "tail; auxiliary after every picture; wrong picture type; real level-1 pattern; ...). Cells: trivial keys the encoder "
     "documents it checks (profile, coding mode, wavelet, depth, slice counts, same-dimensions, slice bytes / prefix bytes, "
     "custom-matrix flag) any/exact/containing/restricting; every custom_*_flag and asym_*_flag any/{F,T}/{True}/{False}; preset "
-    "index cells any/index-0-only/presets-only/exact/containing; base_video_format any/subset/other-field-order; value cells "
+    "index cells any/index-0-only/presets-only/exact/containing/excluding-the-matching-preset; base_video_format any/subset/other-field-order; value cells "
     "any/exact/containing/restricting/empty; wavelet_index_ho and dwt_depth_ho restricted only when the configuration is "
     "symmetric in that respect (the encoder then owns the choice not to emit them); tables are drawn loose / medium / tight, and "
     "a quarter are 'one_trivial': loose but excluding the configuration's value of exactly one trivial key. Caller-owned unchecked keys "
@@ -227,13 +227,13 @@ def _w(**weights):
 KINDS = {
     "loose": dict(trivial=_w(any=10, exact=5, containing=5), value=_w(any=40, exact=14, containing=14, restrict=1, empty=1),
                   flag=_w(any=20, both=3, true=3, false=1), always_custom_flag=_w(any=10, both=2, true=4),
-                  index=_w(any=14, zero_only=1, presets_only=1, exact=1, containing=2), base=_w(any=10, subset=3, mixed=1)),
+                  index=_w(any=14, zero_only=1, presets_only=1, exact=1, containing=2, exclude_match=2), base=_w(any=10, subset=3, mixed=1)),
     "medium": dict(trivial=_w(any=20, exact=10, containing=10, restrict=1), value=_w(any=30, exact=12, containing=12, restrict=1, empty=1),
                    flag=_w(any=16, both=3, true=4, false=2), always_custom_flag=_w(any=10, both=2, true=5),
-                   index=_w(any=12, zero_only=2, presets_only=1, exact=2, containing=3), base=_w(any=8, subset=5, mixed=1)),
+                   index=_w(any=12, zero_only=2, presets_only=1, exact=2, containing=3, exclude_match=3), base=_w(any=8, subset=5, mixed=1)),
     "tight": dict(trivial=_w(any=20, exact=10, containing=10, restrict=2), value=_w(any=20, exact=8, containing=8, restrict=1, empty=1),
                   flag=_w(any=10, both=2, true=4, false=3), always_custom_flag=_w(any=10, both=2, true=6, false=1),
-                  index=_w(any=8, zero_only=2, presets_only=2, exact=2, containing=3), base=_w(any=5, subset=6, mixed=1, other_tff=1)),
+                  index=_w(any=8, zero_only=2, presets_only=2, exact=2, containing=3, exclude_match=3), base=_w(any=5, subset=6, mixed=1, other_tff=1)),
 }
 ALWAYS_CUSTOM = ("custom_dimensions_flag", "custom_clean_area_flag")  # tiny frames equal no base format
 
@@ -271,6 +271,9 @@ def synthetic_columns(draw, cf):
             col[k] = {"v": [0]}
         elif kind == "presets_only":
             col[k] = {"v": allidx}
+        elif kind == "exclude_match":  # index 0 and presets other than the one(s) encoding the configured value
+            others = [i for i in allidx if i not in match]
+            col[k] = {"v": [0] + draw(st.lists(st.sampled_from(others), max_size=4, unique=True))}
         elif kind == "exact":
             col[k] = {"v": match[:1] or [0]}
         else:
@@ -422,7 +425,7 @@ def restricting_encoder_cells(kinds):
     for k in FLAG_KEYS:
         n += kinds.get(k) in ("true", "false")
     for k in INDEX_KEYS:
-        n += kinds.get(k) in ("zero_only", "presets_only", "exact", "containing")
+        n += kinds.get(k) in ("zero_only", "presets_only", "exact", "containing", "exclude_match")
     n += kinds.get("base_video_format") in ("subset", "mixed", "other_tff")
     for k in HO_KEYS:
         n += kinds.get(k) in ("restrict", "empty")
